@@ -3,6 +3,15 @@ import os
 import select
 
 
+
+def _read_nb(fd, n):
+    """read after select(): the descriptor may share its O_NONBLOCK flag with redo processes, and somebody else may have
+    taken the bytes in between - that is 'nothing there', not an error"""
+    try:
+        return os.read(fd, n)
+    except BlockingIOError:
+        return b''
+
 class HarnessJobserver:
     """A token pipe owned by the harness.  `slots` = total parallelism offered (the child holds one
     implicit token, so slots-1 bytes are put into the pipe)."""
@@ -57,7 +66,7 @@ class HarnessJobserver:
     def drain_cheat(self):
         n = 0
         while self.cr is not None and select.select([self.cr], [], [], 0)[0]:
-            n += len(os.read(self.cr, 65536))
+            n += len(_read_nb(self.cr, 65536))
         return n
 
     def add_token(self, n=1):
@@ -68,7 +77,7 @@ class HarnessJobserver:
         """Count (and remove) the bytes now in the pipe."""
         n = 0
         while select.select([self.r], [], [], 0)[0]:
-            n += len(os.read(self.r, 65536))
+            n += len(_read_nb(self.r, 65536))
         return n
 
     def peek(self):
